@@ -92,26 +92,62 @@ def self_writes(m):
     return out
 
 
-def check_memo_invalidation(program, rep, rule, cls, queries, tables, what):
+def check_memo_invalidation(program, rep, rule, cls, queries, tables, what,
+                            closure_keyed=False):
     """A query method may remember answers in an attribute of the object only
-    if every method that changes the queried tables forgets them again."""
+    if every method that changes the tables the query reads forgets them
+    again.  Writes and reads are followed through the private helpers a
+    method calls on self.  With `closure_keyed` the memo is keyed by a type
+    whose answer depends on its subclasses: dropping the single key of the
+    changed type is not enough (the supertypes' answers change too) - the
+    invalidation must be total or walk `__mro__`."""
     meths = methods_of(program, cls)
+
+    def closure(m, seen=None):
+        seen = seen if seen is not None else []
+        if m in seen:
+            return seen
+        seen.append(m)
+        for callee in self_calls(m):
+            if callee.startswith('_') and not (callee.startswith('__')
+                                               and callee.endswith('__')):
+                for g in meths.get(callee, []):
+                    closure(g, seen)
+        return seen
+
+    def writes(m):
+        out = {}
+        for g in closure(m):
+            for a, n in self_writes(g).items():
+                out.setdefault(a, (n, g))
+        return out
+
+    def reads(m):
+        out = set()
+        for g in closure(m):
+            for x in ast.walk(g.node):
+                if isinstance(x, ast.Attribute) and isinstance(
+                        x.value, ast.Name) and x.value.id == 'self':
+                    out.add(x.attr)
+        return out
+
     qset, _ = called_only_from(meths, set(queries) & set(meths))
-    mutators = {}
-    for name, ms in meths.items():
-        if name in qset or name == '__init__':
-            continue
-        for m in ms:
-            wr = self_writes(m)
-            if any(t in wr for t in tables):
-                mutators[name] = (m, wr)
     n = 0
-    for name in sorted(qset):
+    for name in sorted(set(queries) & set(meths)):
         for m in meths.get(name, []):
             n += 1
-            wr = self_writes(m)
+            wr = writes(m)
+            rd = reads(m) & set(tables)
+            mutators = {}
+            for mname, ms in meths.items():
+                if mname in qset or mname == '__init__':
+                    continue
+                for mm in ms:
+                    w2 = writes(mm)
+                    if any(t in w2 for t in rd):
+                        mutators[mname] = (mm, w2)
             bad = None
-            for attr, node in wr.items():
+            for attr, (node, where_) in wr.items():
                 if attr in tables:
                     bad = (node, f'the query {m.qualname} modifies the table '
                            f'self.{attr}')
@@ -122,7 +158,8 @@ def check_memo_invalidation(program, rep, rule, cls, queries, tables, what):
                 consulted = any(
                     isinstance(x, ast.Attribute) and x.attr == attr
                     and isinstance(x.value, ast.Name) and x.value.id == 'self'
-                    and id(x) not in write_ids for x in ast.walk(m.node))
+                    and id(x) not in write_ids
+                    for g in closure(m) for x in ast.walk(g.node))
                 if not consulted:
                     continue
                 missing = sorted(k for k, (mm, w2) in mutators.items()
@@ -132,10 +169,130 @@ def check_memo_invalidation(program, rep, rule, cls, queries, tables, what):
                            f'self.{attr}, but {", ".join(missing)} change(s) '
                            f'the tables without forgetting them: {what}')
                     break
+                # the memo is forgotten AFTER the tables changed: a statement
+                # that still writes the tables later in the same block (with
+                # callbacks in between, a re-entrant query refills the memo
+                # from half-updated tables)
+                early = None
+                for k, (mm, w2) in mutators.items():
+                    def touches(stmt, what_):
+                        for x in ast.walk(stmt):
+                            a_ = None
+                            if isinstance(x, ast.Attribute) and isinstance(
+                                    x.value, ast.Name) and x.value.id == \
+                                    'self':
+                                a_ = x.attr
+                            if a_ is None:
+                                continue
+                            if a_ in what_:
+                                # a write? (store / del / mutator call)
+                                pass
+                        fake = type('F', (), {'node': stmt})
+                        w_ = self_writes(fake)
+                        hit = any(t in w_ for t in what_)
+                        for c in ast.walk(stmt):
+                            if isinstance(c, ast.Call) and isinstance(
+                                    c.func, ast.Attribute) and isinstance(
+                                        c.func.value, ast.Name) \
+                                    and c.func.value.id == 'self':
+                                for g in meths.get(c.func.attr, []):
+                                    if c.func.attr.startswith('_') and any(
+                                            t in writes(g) for t in what_):
+                                        hit = True
+                        return hit
+
+                    def callout(stmt, depth=2):
+                        """The statement may run user code: it invokes a
+                        looked-up callback, dispatches an event, or calls a
+                        helper of self that does."""
+                        for c in ast.walk(stmt):
+                            if not isinstance(c, ast.Call):
+                                continue
+                            if isinstance(c.func, (ast.Call, ast.Subscript)):
+                                return True
+                            if isinstance(c.func, ast.Attribute) and \
+                                    c.func.attr in ('dispatch',):
+                                return True
+                            if depth and isinstance(
+                                    c.func, ast.Attribute) and isinstance(
+                                        c.func.value, ast.Name) \
+                                    and c.func.value.id == 'self':
+                                for g in meths.get(c.func.attr, []):
+                                    if any(callout(s_, depth - 1)
+                                           for s_ in g.node.body):
+                                        return True
+                        return False
+
+                    def scan(body):
+                        nonlocal early
+                        for i_, st_ in enumerate(body):
+                            if touches(st_, {attr}) and not isinstance(
+                                    st_, (ast.For, ast.While, ast.If,
+                                          ast.Try, ast.With)):
+                                seen_callout = False
+                                for later in body[i_ + 1:]:
+                                    if seen_callout and touches(later, rd):
+                                        early = early or (st_, mm)
+                                    if callout(later):
+                                        seen_callout = True
+                                        if touches(later, rd):
+                                            early = early or (st_, mm)
+                            for fld in ('body', 'orelse', 'finalbody'):
+                                sub_ = getattr(st_, fld, None)
+                                if isinstance(sub_, list) and sub_ and \
+                                        isinstance(sub_[0], ast.stmt):
+                                    scan(sub_)
+                            for h_ in getattr(st_, 'handlers', []) or []:
+                                scan(h_.body)
+                    scan(mm.node.body)
+                if early is not None:
+                    bad = (early[0], f'{early[1].qualname} forgets self.{attr} '
+                           'BEFORE it has finished changing the tables (the '
+                           'same block still writes them afterwards): a '
+                           'query made by a callback in between refills the '
+                           'memo from the half-updated tables - ' + what)
+                    break
+                if closure_keyed:
+                    partial = None
+                    for k, (mm, w2) in mutators.items():
+                        for g in closure(mm):
+                            loops = [l for l in ast.walk(g.node)
+                                     if isinstance(l, ast.For) and any(
+                                         isinstance(x, ast.Attribute)
+                                         and x.attr == '__mro__'
+                                         for x in ast.walk(l.iter))]
+                            in_mro = {id(x) for l in loops
+                                      for x in ast.walk(l)}
+                            for x in ast.walk(g.node):
+                                single = False
+                                if isinstance(x, ast.Call) and isinstance(
+                                        x.func, ast.Attribute) and x.func.attr \
+                                        in ('pop', 'discard', 'remove') \
+                                        and isinstance(
+                                            x.func.value, ast.Attribute) \
+                                        and x.func.value.attr == attr \
+                                        and x.args:
+                                    single = True
+                                if isinstance(x, ast.Delete) and any(
+                                        isinstance(t, ast.Subscript)
+                                        and isinstance(t.value, ast.Attribute)
+                                        and t.value.attr == attr
+                                        for t in x.targets):
+                                    single = True
+                                if single and id(x) not in in_mro:
+                                    partial = partial or (x, g)
+                    if partial is not None:
+                        bad = (partial[0], f'{partial[1].qualname} forgets '
+                               f'only the entry of the type that changed in '
+                               f'self.{attr}: the remembered answers for its '
+                               'supertypes (which list it too) stay stale - '
+                               + what)
+                        break
             rep.check(bad is None, rule, m.where,
                       bad[0] if bad else m.node.name,
-                      'the query keeps no state of its own (or every table '
-                      'mutator invalidates it)', bad[1] if bad else '',
+                      'the query keeps no state of its own (or every mutator '
+                      'of the tables it reads invalidates it)',
+                      bad[1] if bad else '',
                       line=getattr(bad[0], 'lineno', None) if bad
                       else m.node.lineno)
     return n
